@@ -734,6 +734,14 @@ def enumerate_paths(fn, prov=None, start=0, init=None, max_paths=4000, max_visit
                 discr_of[l] = (place_key(rv["place"]), rv["vars"], rv)
             elif rv["k"] == "agg" and rv.get("kind") == "adt":
                 st.variants[(l, ())] = rv["variant"]
+            if rv["k"] == "use" and op_place(rv["op"]) is not None:
+                # a move/copy carries the known variant of its source along
+                src = place_key(op_place(rv["op"]))
+                st.variants.pop((l, ()), None)
+                if src in st.variants and rv["k"] == "use":
+                    st.variants[(l, ())] = st.variants[src]
+            elif rv["k"] != "agg":
+                st.variants.pop((l, ()), None)
         t = b["term"]
         k = t["k"]
         if k == "return":
@@ -745,6 +753,13 @@ def enumerate_paths(fn, prov=None, start=0, init=None, max_paths=4000, max_visit
             if not t["dest"]["p"]:
                 st.consts.pop(t["dest"]["l"], None)
                 st.variants.pop((t["dest"]["l"], ()), None)
+                if is_try_branch(c.path) and c.args and op_place(c.args[0]) is not None:
+                    src = place_key(op_place(c.args[0]))
+                    v = st.variants.get(src)
+                    if v in ("Ok", "Some"):
+                        st.variants[(t["dest"]["l"], ())] = "Continue"
+                    elif v in ("Err", "None"):
+                        st.variants[(t["dest"]["l"], ())] = "Break"
             if t["t"] >= 0:
                 stack.append((t["t"], st))
             continue
